@@ -2,6 +2,7 @@
 //! the real crates of /repo (path dependencies, feature `verif`).
 mod bk;
 mod chunker;
+mod clusterprobe;
 mod common;
 mod ingest;
 mod matchwalk;
@@ -39,6 +40,7 @@ fn main() {
             "updates-walk" => updwalk::run(args[2].parse().unwrap(), args[3].parse().unwrap(), args[4].parse().unwrap(), &args[5]).await,
             "matcher-walk" => matchwalk::run(args[2].parse().unwrap(), &args[3], args[4].parse().unwrap(), &args[5]).await,
             "sub-life" => sublife::run(args[2].parse().unwrap(), &args[3], args[4].parse().unwrap(), &args[5]).await,
+            "cluster-probe" => clusterprobe::run(&args[2]).await,
             "sim-replay" => sim::run_replay(&args[2], &args[3]).await,
             "replay-members" => members::run(&args[2]),
             "replay-chunker" => chunker::run_chunker(&args[2]),
